@@ -24,3 +24,15 @@ def two_qubit_depth(gates, n):
 def skeleton(gates):
     """ordered list of the multi-qubit instructions"""
     return [(name, tuple(qs)) for name, qs in gates if len(qs) >= 2]
+
+
+def skeleton_canon(gates, n):
+    """order-insensitive (DAG) form of the two-qubit skeleton: for every qubit the ordered sequence of the
+    multi-qubit instructions touching it.  Two gate lists that differ only by reordering instructions on disjoint
+    qubits (as qiskit's DAG round trip may do) have the same canonical form."""
+    per = [[] for _ in range(n)]
+    for name, qs in gates:
+        if len(qs) >= 2:
+            for q in qs:
+                per[q].append((name, tuple(qs)))
+    return per
